@@ -64,16 +64,20 @@ def parseC1 (line : String) : Option C1 :=
   | _ => none
 
 def isFloatPt (pt : String) : Bool := pt == "g32f"
+/-- integral source and destination, float32 accumulator and (fractional) float taps -/
+def isMixedPt (pt : String) : Bool := pt == "g8f" || pt == "rgb8f" || pt == "g16f"
+def mixedMod (pt : String) : Int := if pt == "g16f" then 65536 else 256
 
-def runC1 {α : Type} [Add α] [Mul α] [OfNat α 0] (o : C1) (inj : Int → α) (out : α → Int) : List (List (List Int)) :=
+def runC1 {α : Type} [Add α] [Mul α] [OfNat α 0] (o : C1) (inj : Int → α) (out : α → Int)
+    (injTap : Int → α := inj) (injDst : Int → α := inj) : List (List (List Int)) :=
   let cols := isCols o.fn
   let P := o.ks - 1
   (List.range o.planes.length).map fun (ch : Nat) =>
     let plane := o.planes.getD ch #[]
     let sf := srcFn cols o.w P plane
     let src : Int → Int → α := fun x y => inj (sf x y)
-    let dst : List (List α) := (prefill o.S o.w o.h ch).map (·.map inj)
-    let taps := o.taps.map inj
+    let dst : List (List α) := (prefill o.S o.w o.h ch).map (·.map injDst)
+    let taps := o.taps.map injTap
     let r := match o.fn with
       | "cr" => correlateRows o.fixed o.opt taps o.c src o.w o.h dst
       | "cc" => correlateCols o.fixed o.opt taps o.c src o.w o.h dst
@@ -83,6 +87,12 @@ def runC1 {α : Type} [Add α] [Mul α] [OfNat α 0] (o : C1) (inj : Int → α)
 
 def modelC1 (o : C1) : String :=
   if isFloatPt o.pt then showPlanes o.w o.h (runC1 o f32 bitsOf)
+  else if isMixedPt o.pt then
+    -- pixel_assigns_t<PixelAccum, dst>: `Channel2(ch1)`, the float accumulator truncated to the integral destination channel;
+    -- the destination pre-fill was stored through the same integral channel type (wrap)
+    let m := mixedMod o.pt
+    showPlanes o.w o.h (runC1 o (fun v => Float32.ofInt v) (fun x => if m == 256 then (x.toUInt8.toNat : Int) else (x.toUInt16.toNat : Int))
+      (injTap := f32) (injDst := fun v => Float32.ofInt (v % m)))
   else showPlanes o.w o.h (runC1 (α := Int) o id id)
 
 /-- Spec of the 1-D operations for one plane (exact integers) -/
@@ -156,6 +166,36 @@ def judgeFloatC1 (o : C1) (planes : List (List Int)) : String :=
       | none => go (ch + 1) rest
   go 0 planes
 
+/-- Spec for integral pixels with a float accumulator: the textbook sum evaluated in the accumulator type, then stored with the
+    truncation of the destination channel cast.  The generated taps are multiples of 1/8 and all terms are non-negative, so the sum
+    is exact: it is ⌊(Σ ext(src)·(8·tap)) / 8⌋, computed with the integer Spec (`specC1`) on the taps scaled by 8. -/
+def judgeMixedC1 (o : C1) (planes : List (List Int)) : String :=
+  let taps8 := o.taps.map fun b => ((f32 b).toFloat * 8.0)
+  if taps8.any (fun t => t != Float.floor t || t < 0.0) then "fail bad-op(tap-not-a-multiple-of-1/8)" else
+  let o8 : C1 := { o with taps := taps8.map fun t => t.toInt64.toInt }
+  let m := mixedMod o.pt
+  let n := if isCols o.fn then o.h else o.w
+  let effC := if isConv o.fn then o.ks - o.c - 1 else o.c
+  let rec go (ch : Nat) (ps : List (List Int)) : String :=
+    match ps with
+    | [] => "ok"
+    | p :: rest =>
+      let raw := (specC1 o8 ch).flatten
+      let expect := (List.range (o.w * o.h)).map fun (idx : Nat) =>
+        let x := idx % o.w; let y := idx / o.w
+        let i := if isCols o.fn then y else x
+        let border := (o.opt == .outputIgnore || o.opt == .outputZero) && !(windowInside o.ks effC n i)
+        let v := raw.getD idx 0
+        if border then (if o.opt == .outputZero then 0 else v % m) else v / 8
+      match firstDiff p expect with
+      | none => go (ch + 1) rest
+      | some idx =>
+        let x := idx % o.w; let y := idx / o.w
+        let i := if isCols o.fn then y else x
+        let border := (o.opt == .outputIgnore || o.opt == .outputZero) && !(windowInside o.ks effC n i)
+        "fail " ++ (if border then "border-output" else "textbook-sum-in-accumulator-type-then-stored") ++ "@" ++ toString x ++ "," ++ toString y
+  go 0 planes
+
 def judgeC1 (o : C1) (obs : String) : String :=
   if obs.startsWith "assert:" then
     if o.w == 0 ∨ o.h == 0 then "fail returns-normally-on-empty-image" else "fail no-assertion-failure"
@@ -165,6 +205,7 @@ def judgeC1 (o : C1) (obs : String) : String :=
     if w ≠ o.w ∨ h ≠ o.h ∨ planes.length ≠ o.planes.length then "fail shape"
     else if planes.any (fun p => p.length ≠ o.w * o.h) then "fail shape"
     else if isFloatPt o.pt then judgeFloatC1 o planes
+    else if isMixedPt o.pt then judgeMixedC1 o planes
     else
       let rec go (ch : Nat) (ps : List (List Int)) : String :=
         match ps with
